@@ -1,5 +1,6 @@
 import LopdfModel.Thm.C11Distinct
 import LopdfModel.Model.Parse
+import LopdfModel.Model.Read
 /-
   What the PARSER returns is distinct-keyed at every depth: `inner_dictionary` folds the entries
   with `Dictionary::set` (an `IndexMap` insert — a repeated key overwrites), so every dictionary
@@ -123,5 +124,87 @@ theorem parseDirect_nd (inp : Bytes) (o : Obj) (r : Bytes) (h : parseDirect inp 
 /-- non-vacuity: `Dictionary::set` on a key that is already there overwrites (so `<</A 1/A 2>>` parses to the ONE entry
 `/A 2`; `#eval parseDirect [60,60,47,65,32,49,47,65,32,50,62,62]` = `some (dict [([65], int 2)], [])`) -/
 example : Dict.set (Dict.set [] [65] (.int 1)) [65] (.int 2) = [([65], Obj.int 2)] := by rfl
+
+/-! ### the members an object stream contributes -/
+
+theorem pairs_nd (content : Bytes) (first : Nat) : ∀ (n : Nat) (nums : List (Option Nat)) (seen : List Nat), nums.length ≤ n →
+    ∀ p ∈ objStmObjects.pairs content first nums seen, DeepND p.2 := by
+  intro n
+  induction n with
+  | zero =>
+    intro nums seen hl p hp
+    have : nums = [] := List.length_eq_zero_iff.mp (Nat.le_zero.mp hl)
+    subst this
+    simp [objStmObjects.pairs] at hp
+  | succ k ih =>
+    intro nums seen hl p hp
+    match nums with
+    | [] => simp [objStmObjects.pairs] at hp
+    | [_] => simp [objStmObjects.pairs] at hp
+    | a :: b :: rest =>
+      have hr : rest.length ≤ k := by simp at hl; omega
+      unfold objStmObjects.pairs at hp
+      split at hp
+      · exact ih rest _ hr p hp
+      · simp only at hp
+        split at hp
+        · exact ih rest _ hr p hp
+        · split at hp
+          · exact ih rest _ hr p hp
+          · split at hp
+            · exact ih rest _ hr p hp
+            · split at hp
+              · rename_i obj r hpd
+                rcases List.mem_cons.mp hp with rfl | hp
+                · exact parseDirect_nd _ _ _ hpd
+                · exact ih rest _ hr p hp
+              · exact ih rest _ hr p hp
+
+theorem dedupLast_vals (P : Obj → Prop) (l : List (ObjId × Obj)) (h : ∀ p ∈ l, P p.2) : ∀ p ∈ dedupLast l, P p.2 := by
+  unfold dedupLast
+  have : ∀ (l acc : List (ObjId × Obj)), (∀ p ∈ l, P p.2) → (∀ p ∈ acc, P p.2) →
+      ∀ p ∈ l.foldl (fun (acc : List (ObjId × Obj)) (p : ObjId × Obj) =>
+        if acc.any (fun q => q.1 == p.1) then acc.map (fun q => if q.1 == p.1 then (q.1, p.2) else q) else acc ++ [p]) acc, P p.2 := by
+    intro l
+    induction l with
+    | nil => intro acc _ ha; simpa using ha
+    | cons x xs ih =>
+      intro acc hl ha
+      simp only [List.foldl_cons]
+      apply ih _ (fun p hp => hl p (List.mem_cons_of_mem _ hp))
+      have hx := hl x List.mem_cons_self
+      split
+      · intro p hp
+        obtain ⟨q, hq, rfl⟩ := List.mem_map.mp hp
+        split
+        · exact hx
+        · exact ha q hq
+      · intro p hp
+        rcases List.mem_append.mp hp with hp | hp
+        · exact ha p hp
+        · simp at hp; subst hp; exact hx
+  exact this l [] h (by intro p hp; cases hp)
+
+/-- **every member an object stream contributes is distinct-keyed** -/
+theorem objStmObjects_nd (d : Dict) (content : Bytes) (l : List (ObjId × Obj)) (h : objStmObjects d content = .ok l) :
+    ∀ p ∈ l, DeepND p.2 := by
+  unfold objStmObjects at h
+  split at h
+  · cases h
+  split at h
+  · cases h; intro p hp; cases hp
+  split at h
+  · cases h
+  split at h
+  · cases h
+  simp only at h
+  split at h
+  · cases h
+  split at h
+  · cases h
+  split at h
+  · cases h
+  cases h
+  exact dedupLast_vals DeepND _ (pairs_nd content _ _ _ _ (Nat.le_refl _))
 
 end Lopdf.Ed
